@@ -50,7 +50,11 @@ void face_exercise(World &w, int fi, const std::vector<u32> &cps) {
         }
         static const u32 junk[] = {0, 0x20202020, 0x656E2020, 0x656E0000, 0xFFFFFFFF, 0x7A7A7A00};
         for (u32 j : junk) { gr_feature_val *fv = gr_face_featureval_for_lang(face, j); for (unsigned k = 0; k < nf && k < 8; ++k) { const gr_feature_ref *fr = gr_face_fref(face, gr_uint16(k)); if (fr) sink += gr_fref_feature_value(fr, fv); } gr_featureval_destroy(fv); }
-        { gr_feature_val *z = gr_featureval_clone(0); const gr_feature_ref *fr = nf ? gr_face_fref(face, 0) : 0; if (fr && z) { sink += gr_fref_feature_value(fr, z); } gr_featureval_destroy(z); }
+        {   // an empty feature-value object (clone of NULL) is a legal destination for set/get on every feature
+            gr_feature_val *z = gr_featureval_clone(0);
+            for (unsigned k = 0; k < nf && z; ++k) { const gr_feature_ref *fr = gr_face_fref(face, gr_uint16(k < 6 ? k : nf - 1 - (k % 3))); if (!fr) continue; sink += gr_fref_feature_value(fr, z); sink += gr_fref_set_feature_value(fr, gr_uint16(k & 1), z); sink += gr_fref_feature_value(fr, z); if (k > 8) break; }
+            gr_feature_val *z2 = gr_featureval_clone(z); gr_featureval_destroy(z); gr_featureval_destroy(z2);
+        }
         static const u32 scripts[] = {0, 0x6C61746E, 0x61726162, 0xFFFFFFFF};
         for (u32 s : scripts) { const gr_faceinfo *i = gr_face_info(face, s); if (i) sink += i->upem + i->extra_ascent + i->space_contextuals + i->justifies; }
         for (u32 cp : cps) sink += gr_face_is_char_supported(face, cp, 0);
